@@ -36,7 +36,7 @@ def wm_consts(**kw):
 
 def runner_half(c, ex, nsim, seed):
     for k in ex:
-        r = vlib.run_tlc("Watermark", cfg=dict(constants=k, invariants=WM_INV, view="view"), timeout=1500)
+        r = vlib.run_tlc("Watermark", cfg=dict(constants=k, invariants=WM_INV, view="view"), timeout=3000)
         c.add_tlc(r, "Watermark exhaustive %s" % json.dumps(k))
     for i, (k, unit, off) in enumerate([(wm_consts(MaxLen=40), 1, 0), (wm_consts(MaxTick=5, MaxLen=40), 1000000000, 0),
                                         (wm_consts(MaxLen=40), 1000, 1), (wm_consts(MaxTick=5, MaxLen=40), 1000000000, 6)]):
